@@ -254,7 +254,9 @@ def gen_case(rng):
     if rng.random() < 0.3:
         nw = rng.randint(1, 4)
         nlit = rng.randint(0, 2)
-        segs = ['%w' + str(i) for i in range(nw)] + ['L%d' % i for i in range(nlit)]
+        segs = ['%w' + str(i) for i in range(nw)] + [('w%d' % rng.randrange(nw) if rng.random() < 0.3 else 'L%d' % i) for i in range(nlit)]   # a fixed segment may be named like a wildcard: 'markets/%market/weight/%weight'
+        if len(set(segs)) < len(segs):
+            segs = list(dict.fromkeys(segs))
         rng.shuffle(segs)
         if len(segs) == 1:
             segs = ['L9'] + segs if segs[0].startswith('%') else segs + ['%w0']
@@ -277,6 +279,8 @@ def gen_case(rng):
     root = rng.choice(['dict', 'dict', 'Dict', 'dictattr'])
     keys = DOTTED if rng.random() < 0.2 else KEYS
     case = {'kind': 'tree', 't': gen_tree(rng, rng.randint(1, 4), root, keys)}
+    if rng.random() < 0.06:
+        case['t'] = {} if root == 'dict' else {'$' + root: {}}       # an empty starting tree
     if rng.random() < 0.25:
         case['alias'] = [rng.choice(KEYS), rng.choice(KEYS + ['f'])]
         if case['alias'][0] == case['alias'][1]:
